@@ -10,9 +10,9 @@ git -C "$SCR/repo" fetch -q origin; git -C "$SCR/repo" checkout -q -- . ; git -C
 cp /repo/Cargo.lock "$SCR/repo/"
 git -C "$SCR/repo" apply "$PATCH" || { echo "patch does not apply"; exit 2; }
 mkdir -p "$SCR/engine" "$SCR/out"
-rsync -a --delete --exclude target --exclude build.log /verif/engine/ "$SCR/engine/"
+rsync -a --delete --exclude target --exclude build.log "${ENGINE_SRC:-/verif/engine}/" "$SCR/engine/"
 sed -i "s|path = \"/repo|path = \"$SCR/repo|g" "$SCR/engine/Cargo.toml"
-cp /verif/known_findings.json "$SCR/out/"; rm -rf "$SCR/out/pinned"; cp -r /verif/pinned "$SCR/out/pinned"
+cp /verif/known_findings.json "$SCR/out/"; rm -rf "$SCR/out/pinned" "$SCR/out/regress"; cp -r /verif/pinned "$SCR/out/pinned"; cp -r /verif/regress "$SCR/out/regress" 2>/dev/null
 export CARGO_NET_OFFLINE=true VERIF_ROOT="$SCR/out"
 (cd "$SCR/engine" && cargo build --release --offline >"$SCR/build.log" 2>&1) || { echo "engine does not build against the patched tree"; tail -20 "$SCR/build.log"; exit 2; }
 for ID in "$@"; do
